@@ -120,6 +120,11 @@ def one_replacement(ctx, host, e, repl, reqs, meta):
                 bad.append(f'external node {i} of the replacement is not identified with attachment node {i}')
                 tags.append('ext-not-identified')
         internal = [rn for rn in repl.nodes() if rn not in repl.ext]
+        missing = [rn for rn in list(repl.nodes()) if rn not in node_map] + [re_ for re_ in repl.edges() if re_ not in edge_map]
+        if missing:
+            ctx.fail('the returned node_map / edge_map does not cover every node and edge of the replacement', case,
+                     [str(x) for x in missing][:5], None, tags=tags + ['map-incomplete'])
+            return
         copies = [node_map[rn] for rn in internal]
         if after_nodes[len(before_nodes):] != copies or any(cn.label != rn.label for cn, rn in zip(copies, internal)):
             bad.append('internal nodes are not copied one to one with their labels')
